@@ -41,9 +41,12 @@ def drop(wt, prop=None):
 def run_check(prop, wt, tier="quick", seed="0"):
     env = dict(os.environ, QUARA_REPO=wt, VERIF_SEED=seed)
     t0 = time.time()
-    rc, out = sh([os.path.join(VERIF, "check"), prop, "--tier", tier], cwd=VERIF, env=env, timeout=7200)
-    lines = [l for l in out.splitlines() if l.startswith(("VIOLATION", "KNOWN-FINDING", "OK ", "  "))]
-    return rc, lines[-12:], round(time.time() - t0, 1)
+    p = subprocess.run([os.path.join(VERIF, "check"), prop, "--tier", tier], cwd=VERIF, env=env, capture_output=True, text=True, timeout=7200)
+    rc = p.returncode
+    # stdout only (tracebacks of the code under test go to stderr); verdict lines first, then as much detail as fits
+    verdict = [l for l in p.stdout.splitlines() if l.startswith(("VIOLATION", "KNOWN-FINDING", "OK "))]
+    detail = [l for l in p.stdout.splitlines() if l.startswith("  ") and not l.startswith(("  File ", "    "))]
+    return rc, detail[:6] + verdict[-8:], round(time.time() - t0, 1)
 
 
 def confirm(prop, src, sid):
